@@ -21,10 +21,12 @@ import (
 	"net"
 	"os"
 	"path/filepath"
+	"runtime"
 	"strings"
 	"sync"
 	"sync/atomic"
 	"time"
+	"unsafe"
 )
 
 type c06Pipe struct {
@@ -114,6 +116,20 @@ func c06NewFilter(dir string, upIsDir bool) (*c06Filter, error) {
 	return h, nil
 }
 
+// c06HandlerAlive reports whether a goroutine is inside handleTrzsz of this very filter.
+func c06HandlerAlive(f *TrzszFilter) bool {
+	buf := make([]byte, 1<<20)
+	for {
+		n := runtime.Stack(buf, true)
+		if n < len(buf) {
+			buf = buf[:n]
+			break
+		}
+		buf = make([]byte, len(buf)*2)
+	}
+	return bytes.Contains(buf, []byte(fmt.Sprintf("handleTrzsz(%#x", uintptr(unsafe.Pointer(f)))))
+}
+
 func c06WaitUntil(d time.Duration, cond func() bool) bool {
 	deadline := time.Now().Add(d)
 	for i := 0; ; i++ {
@@ -155,12 +171,12 @@ func c06ProtoLines(b []byte) (acts, fails int, first string) {
 // feed one chunk and wait until wrapOutput is back in Read (the chunk has been dealt with)
 func (h *c06Filter) feed(chunk []byte) bool {
 	before := h.srvOut.entered.Load()
-	if !c06WaitUntil(10*time.Second, func() bool { return h.srvOut.entered.Load() >= 1 }) {
+	if !c06WaitUntil(60*time.Second, func() bool { return h.srvOut.entered.Load() >= 1 }) {
 		return false
 	}
 	before = h.srvOut.entered.Load()
 	h.srvOut.ch <- append([]byte(nil), chunk...)
-	return c06WaitUntil(10*time.Second, func() bool { return h.srvOut.entered.Load() > before })
+	return c06WaitUntil(60*time.Second, func() bool { return h.srvOut.entered.Load() > before })
 }
 
 // step feeds one chunk of server output and reports what the filter did with it.
@@ -180,19 +196,34 @@ func (h *c06Filter) step(st *c06Step) c06Obs {
 	s0, c0 := h.srvIn.Len(), h.cliOut.Len()
 	prev := f.trigger
 	if !h.feed(st.Raw) {
-		o.Timeout = "chunk not consumed within 10s"
+		o.Timeout = "chunk not consumed within 60s"
 		return o
 	}
 	shown := h.cliOut.From(c0)
 	spawned := f.trigger != prev // steering only: tells the harness whether to wait for the handler
 	if spawned {
-		// time to the first protocol line is bounded by the code's own constants: 50 ms (chooseDownloadPath)
-		// + 1 s (connectToTunnel gives up) + 100 ms (cleanInput before #fail:); 6 s is 5x that.  A handler
-		// that wrote nothing by then and holds no transfer is recorded as what it is: no transfer started.
-		if !c06WaitUntil(6*time.Second, func() bool { a, fl, _ := c06ProtoLines(h.srvIn.From(s0)); return a+fl > 0 }) {
-			if f.IsTransferringFiles() {
-				o.Timeout = "handler holds a transfer but wrote no #ACT:/#fail: line within 6s"
+		// Wait for the first protocol line.  A handler that returned without writing anything (its
+		// goroutine is gone: checked on the stack dump by receiver address) is recorded as what it is -
+		// no transfer started; a handler still alive after 90 s is an infrastructure problem.
+		start := time.Now()
+		gone := 0
+		for {
+			if a, fl, _ := c06ProtoLines(h.srvIn.From(s0)); a+fl > 0 {
+				break
 			}
+			if time.Since(start) > time.Second {
+				if c06HandlerAlive(f) {
+					gone = 0
+				} else if gone++; gone >= 2 {
+					break
+				}
+				time.Sleep(50 * time.Millisecond)
+			}
+			if time.Since(start) > 90*time.Second {
+				o.Timeout = "handler alive but no #ACT:/#fail: line within 90s"
+				break
+			}
+			time.Sleep(time.Millisecond)
 		}
 		acts, _, _ := c06ProtoLines(h.srvIn.From(s0))
 		if acts > 0 {
@@ -201,8 +232,8 @@ func (h *c06Filter) step(st *c06Step) c06Obs {
 			if !h.feed([]byte("#fail:" + encodeString("c06 harness: end of observation") + "!\n")) {
 				o.Timeout = "fail line not consumed"
 			}
-			if !c06WaitUntil(15*time.Second, func() bool { return !f.IsTransferringFiles() }) {
-				o.Timeout = "transfer still active 15s after #fail:"
+			if !c06WaitUntil(60*time.Second, func() bool { return !f.IsTransferringFiles() }) {
+				o.Timeout = "transfer still active 60s after #fail:"
 			}
 		}
 		// the tunnel connector (if any) has been called before the first protocol line;
